@@ -320,7 +320,7 @@ def kclass(k):
 def is_spd(M, rel=1e-9):
     np = np_()
     A = np.array(M, dtype=float)
-    if not np.all(np.isfinite(A)) or np.abs(A - A.T).max() > rel * max(np.abs(A).max(), 1e-300):
+    if not np.all(np.isfinite(A)) or np.abs(A - A.T).max() > 1e-6 * max(np.abs(A).max(), 1e-300):
         return False
     w = np.linalg.eigvalsh((A + A.T) / 2)
     return w.min() > rel * max(w.max(), 1e-300)
@@ -513,6 +513,13 @@ def judge_pf_band(pp, torch, c, N, seed):
 
 
 # ------------------------------------------------------------------------------------------------ Coq literals
+def qlit(x):            # noqa: F811  (replaces common.qlit in this module: primitive-integer literal, see Model/Filter.v)
+    f = F(x)
+    d = f.denominator
+    assert d & (d - 1) == 0 and abs(f.numerator) < 2 ** 62, x
+    return '(%s %d (%d))' % ('fn' if f.numerator < 0 else 'fp', abs(f.numerator), -(d.bit_length() - 1))
+
+
 def qv(v):
     return coq_list(qlit(t) for t in v)
 
@@ -532,8 +539,8 @@ def fcase_lit(i, c, outx, outP, tx, tP):
         qv(outx), qm(outP), qlit(tx), qlit(tP))
 
 
-HDR = ('From Coq Require Import List ZArith QArith Bool. Import ListNotations.\n'
-       'From PV Require Import Base.Num Base.Mat Model.Filter.\nOpen Scope Q_scope.\n')
+HDR = ('From Coq Require Import List ZArith QArith Bool Uint63. Import ListNotations.\n'
+       'From PV Require Import Base.Num Base.Mat Model.Filter.\n')
 
 
 def shard(items, n):
@@ -551,16 +558,17 @@ class Run:
         self.pp = import_pypose()
         import torch
         self.torch = torch
-        self.lits = {'ekf': [], 'ukf': [], 'pfpart': [], 'pflik': [], 'pfest': []}
+        self.lits = {'ekf': [], 'ukf': [], 'pfpart': [], 'pflik': [], 'pfest': [], 'ekfdoc': [], 'ukfrep': []}
+        self.runs = []          # (filter, header literal, [step literals])
         self.metas = []
 
     def report(self, findings, meta):
         for key, what in findings:
             self.ctx.count('finding:' + key.split(':')[0] + (':recorded' if key in self.ctx.known else ':NEW'))
-            self.ctx.violation(key, what, meta)
+            self.ctx.violation(key, what, dict(strip(meta), expect_key=key))
 
     # ---- one filter call: implementation, oracle, literal for Coq
-    def step_case(self, filt, c, kind='nls', family='step', model=None, judge=True):
+    def step_case(self, filt, c, kind='nls', family='step', model=None, judge=True, run=None):
         ctx = self.ctx
         meta = dict(kind='step', filter=filt, syskind=kind, case=c, family=family)
         try:
@@ -582,9 +590,24 @@ class Run:
             ctx.count('tolerance-widened-ill-conditioned')
         i = len(self.metas)
         self.metas.append(meta)
-        self.lits[filt].append(fcase_lit(i, c, ox, oP, rel * sx, rel * sP))
+        if run is None:
+            self.lits[filt].append(fcase_lit(i, c, ox, oP, rel * sx, rel * sP))
+        else:
+            run.append('(%d%%nat, %s, %s, %s, %s, %s, %s, %s, %s)' % (i, qv(c['x']), qv(c['y']), qv(c['u']), qm(c['P']), qv(ox), qm(oP),
+                                                                     qlit(rel * sx), qlit(rel * sP)))
         if judge:
             self.report(judge_step(self.pp, self.torch, meta), meta)
+        # oracle consistency: the documented EKF / the repaired UKF of the Coq model against the mpmath oracle
+        # (this ties the oracle used above to the Coq specification; the implementation is not involved)
+        fam2 = 'ekfdoc' if filt == 'ekf' else 'ukfrep'
+        if family != 'run' and len(self.lits[fam2]) < 40 and is_spd(c['P']):
+            try:
+                kx, kP = oracle_kf(c) if filt == 'ekf' else oracle_ukf(c)
+                kx, kP = [float(t) for t in kx], [[float(t) for t in r] for r in kP]
+                s2x, s2P = scales(c, kx, kP)
+                self.lits[fam2].append(fcase_lit(i, c, kx, kP, rel * s2x, rel * s2P))
+            except Exception:   # noqa  (negative weights can make the oracle's predicted covariance indefinite)
+                pass
         return ox, oP
 
     # ---- a run: the user's loop around forward
@@ -599,6 +622,8 @@ class Run:
             S['A'] = (np.array(S['A']) * (0.9 / rho)).tolist()
         model = build_system(self.pp, self.torch, S, kind)
         x, P = c0['x'], c0['P']
+        steps = []
+        self.runs.append((filt, '%s %s %s %s' % (sys_lit(S), qm(c0['Q']), qm(c0['R']), qlit(kval(c0))), steps))
         LQ, LR = np.linalg.cholesky(np.array(c0['Q'])), np.linalg.cholesky(np.array(c0['R']))
         xt = np.array(x) + np.linalg.cholesky(np.array(P)) @ np.array([rng.gauss(0, 1) for _ in range(n)])
 
@@ -610,11 +635,11 @@ class Run:
             u = np.array([rng.gauss(0, 1) for _ in range(p)])
             xt = fq('A', 'B', 'c1', 'a', n, xt, u) + LQ @ np.array([rng.gauss(0, 1) for _ in range(n)])
             yt = fq('C', 'D', 'c2', 'b', m, xt, u) + LR @ np.array([rng.gauss(0, 1) for _ in range(m)])
-            if not np.all(np.abs(xt) < 1e3):
+            if not np.all(np.abs(xt) < 1e5):
                 self.ctx.count('run-stopped-simulated-state-diverged')
                 break
             c = dict(c0, x=x, P=P, u=u.tolist(), y=yt.tolist())
-            r = self.step_case(filt, c, kind, family='run', model=model, judge=(t % 5 == 4 or t < 2))
+            r = self.step_case(filt, c, kind, family='run', model=model, judge=(t % 5 == 4 or t < 2), run=steps)
             if r is None:
                 break
             x, P = r
@@ -666,9 +691,12 @@ class Run:
         ctx = self.ctx
         files = []
         for fam, fn, per in (('ekf', 'ekf_bad', 60), ('ukf', 'ukf_bad', 40), ('pfpart', 'pf_part_bad', 40), ('pflik', 'pf_lik_bad', 40),
-                             ('pfest', 'pf_est_codes', 40)):
+                             ('pfest', 'pf_est_codes', 40), ('ekfdoc', 'ekf_documented_bad', 40), ('ukfrep', 'ukf_repaired_bad', 40)):
             for si, sh in enumerate(shard(self.lits[fam], per)):
                 files.append(('%s_%03d' % (fam, si), HDR + 'Eval vm_compute in %s %s.\n' % (fn, coq_list(sh))))
+        for ri, (filt, head, steps) in enumerate(self.runs):
+            if steps:
+                files.append(('run_%03d' % ri, HDR + 'Eval vm_compute in run_bad %s %s %s.\n' % ('true' if filt == 'ukf' else 'false', head, coq_list(steps))))
         res = run_case_files('C13', files, timeout=170)
         for name, (rc, out) in sorted(res.items()):
             ev = parse_evals(out)
@@ -677,14 +705,24 @@ class Run:
                 continue
             fam = name.split('_')[0]
             if fam == 'pfest':
-                for mm in re.finditer(r'\((\d+)(?:%nat)?,\s*(\d+)(?:%nat)?\)', ev[0]):
-                    i, code = int(mm.group(1)), int(mm.group(2))
+                pairs = re.findall(r'\(\s*(\d+)(?:%nat)?\s*,\s*(\d+)(?:%nat)?\s*\)', ev[0])
+                if len(pairs) != ev[0].count(','):       # every pair has exactly one comma: nothing may be skipped
+                    ctx.obligation_broken('correspondence-file:' + name, 'unparsed result: ' + ev[0][:500])
+                for a, b in pairs:
+                    i, code = int(a), int(b)
                     ctx.count('pf-estimate-' + {0: 'agrees', 1: 'DISAGREES', 2: 'undecided(uniform at a boundary)'}[code])
                     if code == 1:
                         ctx.mismatch('pf-estimate', strip(self.metas[i]))
                 continue
+            if fam in ('ekfdoc', 'ukfrep'):
+                ctx.count('oracle-consistency-' + fam, len(self.lits[fam]) if name.endswith('_000') else 0)
+                for i in parse_nat_list(ev[0]):
+                    ctx.obligation_broken('oracle-consistency:' + fam, 'the mpmath oracle and the %s of Model/Filter.v disagree on %r'
+                                          % ('documented EKF recursion' if fam == 'ekfdoc' else 'repaired UKF', strip(self.metas[i])))
+                continue
             for i in parse_nat_list(ev[0]):
-                fam2 = {'ekf': 'ekf-step', 'ukf': 'ukf-step', 'pfpart': 'pf-particles', 'pflik': 'pf-loglik'}[fam]
+                fam2 = {'ekf': 'ekf-step', 'ukf': 'ukf-step', 'pfpart': 'pf-particles', 'pflik': 'pf-loglik'}.get(fam)
+                fam2 = fam2 or ('%s-step' % self.metas[i]['filter'])
                 ctx.mismatch(fam2, strip(self.metas[i]))
 
 
@@ -770,7 +808,7 @@ def run(ctx):
             ctx.case(('sigma', repr(c)), branch='sigma-points-' + ('diag' if diag or n == 1 else 'nondiag'))
             R.report(judge_sigma(pp, torch, c), dict(kind='sigma', case=c))
     # ---- random single steps
-    for t in range(ctx.scale(60, 1500)):
+    for t in range(ctx.scale(160, 1500)):
         filt = 'ekf' if t % 2 == 0 else 'ukf'
         n, m, p = rng.randint(1, 6), rng.randint(1, 6), rng.randint(1, 4)
         nonlin = rng.random() < 0.3
@@ -778,13 +816,13 @@ def run(ctx):
         kind = 'sys' if (not nonlin and rng.random() < 0.3) else 'nls'
         R.step_case(filt, gen_case(rng, n, m, p, nonlinear=nonlin, k=k if filt == 'ukf' else None, diagonal=rng.random() < 0.1), kind)
     # ---- runs
-    plan = [(6, 4, 2, 50), (2, 2, 1, 50), (3, 5, 1, 30), (1, 1, 1, 50)] if not ctx.thorough else \
+    plan = [(6, 4, 2, 50), (2, 2, 1, 50), (3, 5, 1, 30), (1, 1, 1, 50), (4, 2, 2, 50), (5, 6, 3, 20)] if not ctx.thorough else \
         [(rng.randint(1, 6), rng.randint(1, 6), rng.randint(1, 3), rng.choice([50, 50, 20, 35])) for _ in range(30)]
     for (n, m, p, T) in plan:
         for filt in ('ekf', 'ukf'):
             R.run_case(filt, rng, n, m, p, T, nonlinear=(0.01 if n == 3 else False), k=None if filt == 'ekf' else rng.choice([None, 1, 0.5]))
     # ---- PF: recorded draws against the model
-    for t in range(ctx.scale(24, 300)):
+    for t in range(ctx.scale(40, 300)):
         n, m, p = rng.randint(1, 3), rng.randint(1, 3), rng.randint(1, 2)
         c = gen_case(rng, n, m, p, nonlinear=(t % 3 == 2), scales=[10.0 ** rng.uniform(-2, 2) for _ in range(3)])
         # measurements near the predicted observation keep the weights from collapsing onto one particle
@@ -794,7 +832,7 @@ def run(ctx):
         c['y'] = [float(v + rng.gauss(0, 1) * math.sqrt(max(c['R'][i][i], 1e-12))) for i, v in enumerate(ypred)]
         R.pf_case(c, rng.choice([1, 2, 5, 8, 12]), rng.randint(0, 10 ** 6), kind='nls' if t % 4 else ('sys' if is_linear(S) else 'nls'))
     # ---- PF: Monte-Carlo band on random linear systems (as-coded model must be met; the documented one is the finding)
-    for t in range(ctx.scale(12, 100)):
+    for t in range(ctx.scale(20, 100)):
         n, m = rng.randint(1, 3), rng.randint(1, 2)
         c = gen_case(rng, n, m, 1, scales=[1.0, 10.0 ** rng.uniform(-0.5, 0.5), 10.0 ** rng.uniform(-0.5, 0.5)])
         np = np_()
@@ -814,7 +852,7 @@ def run(ctx):
         why = replay(ctx, mm['case'], new_only=True)
         if why:
             mm['explained'] = True
-            ctx.violation(why[0], why[1], mm['case'])
+            ctx.violation(why[0], why[1], dict(mm['case'], expect_key=why[0]))
 
 
 def replay(ctx, case, new_only=False):
@@ -838,6 +876,8 @@ def replay(ctx, case, new_only=False):
     if new_only:
         res = [r for r in res if r[0] not in ctx.known]
         return res[0] if res else None
+    if case.get('expect_key'):          # a replay file names the clause that failed: only that one counts
+        res = [r for r in res if r[0] == case['expect_key']]
     return '; '.join('%s: %s' % r for r in res) if res else None
 
 
